@@ -39,7 +39,7 @@ Proof. intros H. unfold put. apply N.eqb_neq in H. now rewrite H. Qed.
       changes neither the database nor any other session.                                            *)
 
 Definition quiet (q : stmt wop) : bool :=
-  match q with Read _ | Write _ _ | Bad => true | _ => false end.
+  match q with Read _ | Write _ _ | WriteAll _ _ | Bad => true | _ => false end.
 
 (* the session holds an open transaction that the end of a statement will not commit *)
 Definition holding (se : sess) : Prop := tx se = true /\ (ign se = true \/ ac se = false).
@@ -60,7 +60,7 @@ Proof.
   assert (Hc : forall g, close (db st) (mkSess g (tx (ss st s)) (ign (ss st s)) (ac (ss st s))) (ac (ss st s))
                = (db st, mkSess g (tx (ss st s)) (ign (ss st s)) (ac (ss st s)))).
   { intros g. apply close_holding; [exact Hh|reflexivity]. }
-  destruct q as [t|t w| | | |b|]; try discriminate; cbn -[touch put cur close].
+  destruct q as [t|t w| | | |b| |t w|t w]; try discriminate; cbn -[touch touch_all put cur close].
   - (* Read *)
     rewrite Hc. cbn -[touch put cur]. repeat split; auto; intros; try (now apply set_sess_other); rewrite set_sess_same; cbn; auto.
   - (* Write *)
@@ -70,6 +70,8 @@ Proof.
     + repeat split; auto; intros; try (now apply set_sess_other); rewrite set_sess_same; auto.
     + destruct Hm as [Hm|Hm]; [discriminate|]. rewrite Hm.
       repeat split; auto; intros; try (now apply set_sess_other); rewrite set_sess_same; auto.
+  - (* WriteAll *)
+    rewrite Hc. cbn -[touch touch_all put cur]. repeat split; auto; intros; try (now apply set_sess_other); rewrite set_sess_same; cbn; auto.
 Qed.
 
 (* ------------------------------------------------------------------------------------------------ *)
@@ -106,6 +108,16 @@ Proof.
   split; [intros t; unfold publish; now apply cur_ext|repeat split; cbn; auto; congruence].
 Qed.
 
+Lemma close_ic_ext (d1 d2 : tid -> data) (a b : sess) :
+  (forall t, d1 t = d2 t) -> sess_eq a b ->
+  (forall t, fst (close_ic d1 a) t = fst (close_ic d2 b) t) /\
+  sess_eq (snd (close_ic d1 a)) (snd (close_ic d2 b)).
+Proof.
+  intros Hd (Hs & Ht & Hi & Ha). unfold close_ic. rewrite <- Ht.
+  destruct (tx a) eqn:Et; cbn; [|repeat split; auto; congruence].
+  split; [intros t; unfold publish; now apply cur_ext|repeat split; cbn; auto; congruence].
+Qed.
+
 (* a step of another session s' behaves the same in two states that agree except on s *)
 Lemma step_other_agree s st1 st2 s' q :
   s' <> s -> agree_but s st1 st2 ->
@@ -122,7 +134,7 @@ Proof.
   assert (Htouch : forall t t', touch (db st1) (staged e1) t t' = touch (db st2) (staged e2) t t').
   { intros t t'. unfold touch. rewrite (cur_ext _ _ _ _ t Hd Hstg). now apply put_ext. }
   unfold step. rewrite <- Heqe1, <- Heqe2.
-  destruct q as [t|t w| | | |b|]; cbn zeta.
+  destruct q as [t|t w| | | |b| |t w|t w]; cbn zeta.
   - (* Read *)
     rewrite <- Hac.
     destruct (close_ext (db st1) (db st2)
@@ -162,6 +174,34 @@ Proof.
     split; [|reflexivity]. apply Hset; auto.
     rewrite <- Hign, <- Hac. destruct (ign e1) eqn:Ei; [repeat split; auto; congruence|].
     destruct (ac e1) eqn:Ea; repeat split; cbn; auto; congruence.
+  - (* WriteIC *)
+    rewrite (cur_ext _ _ _ _ t Hd Hstg).
+    destruct (apply w (cur (db st2) (staged e2) t)) as [x|].
+    + destruct (close_ic_ext (db st1) (db st2)
+                  (mkSess (put (touch (db st1) (staged e1) t) t x) (tx e1) (ign e1) (ac e1))
+                  (mkSess (put (touch (db st2) (staged e2) t) t x) (tx e2) (ign e2) (ac e2)) Hd) as [Hc1 Hc2].
+      { repeat split; cbn; auto. intros t'. apply put_ext. apply Htouch. }
+      split; [apply Hset; auto|reflexivity].
+    + destruct (close_ic_ext (db st1) (db st2)
+                  (mkSess (touch (db st1) (staged e1) t) (tx e1) (ign e1) (ac e1))
+                  (mkSess (touch (db st2) (staged e2) t) (tx e2) (ign e2) (ac e2)) Hd) as [Hc1 Hc2].
+      { repeat split; cbn; auto. }
+      split; [apply Hset; auto|reflexivity].
+  - (* WriteAll *)
+    assert (Hta : forall t', touch_all (db st1) (staged e1) t' = touch_all (db st2) (staged e2) t').
+    { intros t'. unfold touch_all. f_equal. now apply cur_ext. }
+    rewrite <- Hac. rewrite (cur_ext _ _ _ _ t Hd Hstg).
+    destruct (apply w (cur (db st2) (staged e2) t)) as [x|].
+    + destruct (close_ext (db st1) (db st2)
+                  (mkSess (put (touch_all (db st1) (staged e1)) t x) (tx e1) (ign e1) (ac e1))
+                  (mkSess (put (touch_all (db st2) (staged e2)) t x) (tx e2) (ign e2) (ac e1)) (ac e1) Hd) as [Hc1 Hc2].
+      { repeat split; cbn; auto. intros t'. apply put_ext. apply Hta. }
+      split; [apply Hset; auto|reflexivity].
+    + destruct (close_ext (db st1) (db st2)
+                  (mkSess (touch_all (db st1) (staged e1)) (tx e1) (ign e1) (ac e1))
+                  (mkSess (touch_all (db st2) (staged e2)) (tx e2) (ign e2) (ac e1)) (ac e1) Hd) as [Hc1 Hc2].
+      { repeat split; cbn; auto. }
+      split; [apply Hset; auto|reflexivity].
 Qed.
 
 (* the results seen by sessions other than s *)
